@@ -4,7 +4,8 @@ the panic-capable sites reachable from the decoder are an enumerated, reviewed s
 from ..cfg import Body, name_matches, const_int
 from ..report import where
 from ..facts import in_module
-from .. import taint
+from .. import taint, quantguard
+from .. import orderdom as od
 
 LEVEL = "other"
 MODULE = "samyama::protocol::resp::"
@@ -94,6 +95,41 @@ def run(ctx, F, cg):
                               "%s — value from [%s] reaches this sink with facts %s, needs one of %s" % (s["desc"], srcs, s["have"], [sorted(x) for x in s["need"]]))
             else:
                 ctx.ok("R21a", inst, "%s bounded by %s (source: %s)" % (s["desc"], s["have"], srcs))
+    # ---- R21d: quantitative length guards ---------------------------------------------------------------------
+    ctx.rule("R21d", "for every slice indexed by a range whose end derives from a client-supplied number, the dominating length comparisons imply end <= len for every value (evaluated on a grid over (number, length)) — an off-by-k guard passes the qualitative rule but not this one")
+    nq = 0
+    for p in scope:
+        b = bodies[p]
+        tr = results[p]
+        if not tr.tainted:
+            continue
+        short = p.replace(MODULE, "")
+        k = 0
+        for c in b.calls():
+            m = c.path.rsplit("::", 1)[-1]
+            if m not in ("index", "index_mut", "split_at", "split_at_mut", "split_to", "advance", "get_unchecked") or len(c.args) < 2:
+                continue
+            a = c.args[1]
+            if a[0] == "k" or a[1][0] not in tr.tainted:
+                continue
+            ends = []
+            for o in b.origins(a[1][0]):
+                if o[0] == "agg" and ("ops::Range" in o[1]) and o[2]:
+                    ends.append(o[2][-1])
+            if not ends and _is_int(b.local_ty(a[1][0])):
+                ends.append(a)
+            for e_op in ends:
+                if e_op[0] == "k":
+                    continue
+                nq += 1
+                inst = "%s|bound|%d" % (short, k)
+                k += 1
+                ok, detail = quantguard.check_bound(b, c.bb, od.expr_of(b, e_op), set())
+                if ok:
+                    ctx.ok("R21d", inst, detail)
+                else:
+                    ctx.violation("R21d", inst, where(F.fns[p], c.line), "length guard does not cover this %s: %s" % (m, detail))
+    ctx.floor("R21d", "client-bounded slice operations", nq, 1)
     ctx.floor("R21a", "numeric parse sources in the decoder", nsrc, 3)
     ctx.floor("R21a", "sinks reached by client-supplied numbers", nsinks, 3)
 
